@@ -144,7 +144,7 @@ func (w *W) c02(groups [][]*driver.Bound) {
 					SetMapRotation(r)
 					rec, err := b.Fresh(rv)
 					if err != nil {
-						SetMapRotation(-1)
+						SetMapRotation(0)
 						w.res.HarnessErr = err.Error()
 						return
 					}
@@ -205,7 +205,7 @@ func (w *W) c02(groups [][]*driver.Bound) {
 						w.sample(map[string]any{"case": b.Case.ID, "class": b.Case.Class, "size": size, "bytes": vlib.Hex(m), "buffer_prestates": "00/ff/a55a x extra 0/8", "map_rotations": len(rots)})
 					}
 				}
-				SetMapRotation(-1)
+				SetMapRotation(0)
 			}
 		}
 	}
@@ -311,7 +311,7 @@ func (w *W) c03(groups [][]*driver.Bound) {
 					SetMapRotation(r)
 					rec, err := b.Fresh(rv)
 					if err != nil {
-						SetMapRotation(-1)
+						SetMapRotation(0)
 						w.res.HarnessErr = err.Error()
 						return
 					}
@@ -337,7 +337,7 @@ func (w *W) c03(groups [][]*driver.Bound) {
 					}
 					w.distinctKey(b.Case.ID + string(ref.B))
 				}
-				SetMapRotation(-1)
+				SetMapRotation(0)
 				// decode direction: every permutation of map entries the reference encoder can produce
 				perms := permutations(min(maxMapLen(rv), 3))
 				for pi, p := range perms {
@@ -428,7 +428,7 @@ func (w *W) c09(groups [][]*driver.Bound) {
 			for _, b := range g {
 				rec, err := b.Fresh(rv)
 				if err != nil {
-					SetMapRotation(-1)
+					SetMapRotation(0)
 					w.res.HarnessErr = err.Error()
 					return
 				}
@@ -459,7 +459,7 @@ func (w *W) c09(groups [][]*driver.Bound) {
 					}
 				}
 			}
-			SetMapRotation(-1)
+			SetMapRotation(0)
 			if baseBytes == nil {
 				continue
 			}
